@@ -45,6 +45,7 @@ type Task struct {
 	steps    int
 	consec   int
 	rotated  bool
+	prio     int // PCT priority (higher runs first)
 }
 
 // Action is an environment step the world offers to the scheduler.
@@ -129,6 +130,12 @@ type Sim struct {
 	knobFn  func(site, def int) int
 	budget  bool // decision/time budget exhausted
 	Verbose bool
+	// PCT-style policy (Burckhardt et al.): tasks get random priorities, the highest-priority
+	// ready task always runs, and at d random scheduling points the running task is demoted.
+	pct       bool
+	pctPoints map[int]bool
+	yields    int
+	demoted   int
 }
 
 type lockState struct {
@@ -198,6 +205,16 @@ func New(tape *Tape, opts Options) *Sim {
 		start:  time.Now(),
 	}
 	s.trace.full = opts.TraceFull
+	// scheduling policy of this run: 0/1 = random walk with inline continuation, 2 = PCT
+	if tape.Draw(3) == 2 {
+		s.pct = true
+		s.pctPoints = map[int]bool{}
+		depth := 1 + tape.Draw(3)
+		horizon := 200 * (1 + tape.Draw(10))
+		for i := 0; i < depth; i++ {
+			s.pctPoints[1+tape.Draw(horizon)] = true
+		}
+	}
 	cur.Store(s)
 	return s
 }
@@ -253,6 +270,9 @@ func (s *Sim) newTask(name string, site int) *Task {
 	s.mu.Lock()
 	t := &Task{ID: s.nextID, Name: name, Site: site, wake: make(chan struct{})}
 	s.nextID++
+	if s.pct {
+		t.prio = 1 + s.tape.Draw(1<<16)
+	}
 	if c := s.current; c != nil {
 		t.Parent = c.ID
 	} else {
@@ -348,7 +368,21 @@ func (s *Sim) yield(t *Task, site int) {
 			t.park(stReady)
 			return
 		}
-		if s.Stats.Decisions < s.opts.MaxDecisions {
+		if s.pct {
+			// PCT: keep running unless this scheduling point is a priority change point
+			s.yields++
+			s.Stats.Decisions++
+			if !s.pctPoints[s.yields] {
+				// still let the environment in now and then (every 16th point parks)
+				if s.yields%16 != 0 {
+					s.Stats.InlineKeeps++
+					return
+				}
+			} else {
+				s.demoted++
+				t.prio = -s.demoted
+			}
+		} else if s.Stats.Decisions < s.opts.MaxDecisions {
 			s.Stats.Decisions++
 			if s.tape.Draw(100) < s.opts.PKeep {
 				s.Stats.InlineKeeps++
@@ -512,6 +546,17 @@ func (s *Sim) decide(ready []*Task, acts []Action) {
 		time bool
 	}
 	var cs []cand
+	if s.pct && len(ready) > 0 {
+		// only the highest-priority ready task competes (ties by id)
+		top := ready[0]
+		for _, t := range ready {
+			if t.prio > top.prio {
+				top = t
+			}
+		}
+		cs = append(cs, cand{w: 3 * s.opts.WTask, task: top})
+		ready = nil
+	}
 	for _, t := range ready {
 		if t == s.current {
 			cs = append(cs, cand{w: s.opts.WTask, task: t})
